@@ -12,6 +12,7 @@ from ..gen import cells
 from ..gen import c16_indices as GI
 from ..gen import c16_strings as GS
 from ..gen import c16_present as GP
+from ..gen import c16_history as GH
 from ..oracle import geometry as G
 from ..oracle import c16_miller as M
 from .. import monitor, cover
@@ -56,6 +57,10 @@ CONFIG = {'thorough': {'timeout': 7200}}
 MILLER_PY = 'atomman/tools/miller.py'
 CELL_KINDS = ['cubic', 'tetragonal', 'orthorhombic', 'hexagonal', 'rhombohedral', 'monoclinic', 'triclinic', 'tilted',
               'rotated', 'hexagonal-rotated', 'triclinic', 'tilted']
+# every crystal family also turned off the Cartesian axes (a family-specific shortcut must hold in every orientation)
+ROTATED_KINDS = [f + '-rotated' for f in cells.FAMILIES]
+CELL_KINDS_ALL = CELL_KINDS[:10] + [k for k in ROTATED_KINDS if k != 'hexagonal-rotated']
+ORIENT_SCALES = (1.0, 1e2, 1e-2)        # far above the absolute tolerance of the family predicates: the cell IS of its family
 FAMILY_OF_PRED = ['cubic', 'hexagonal', 'tetragonal', 'rhombohedral', 'orthorhombic', 'monoclinic', 'triclinic']
 # cell length scales: the plane normal and the direction are scale-free statements (no absolute threshold is stated),
 # so the whole range from a cell written in metres (1e-10) to one in 1e-4 angstrom units (1e4) is in the quantifier
@@ -167,12 +172,20 @@ def branch_lines(func):
 
 
 # ----------------------------------------------------------------------------- helpers
-def make_cell(rng, kind, oc, scale):
-    if kind == 'hexagonal-rotated':
-        cell = cells.gen_cell(rng, 'hexagonal', oc, scale)
-        cell['vects'] = cell['vects'] @ G.random_rotation(rng).T
+def make_cell(rng, kind, oc, scale, orient='generic'):
+    """cells.gen_cell plus '<family>-rotated': a cell of the family turned off the Cartesian axes (orientation class
+    ``orient`` of vf.gen.c16_history.ORIENTATIONS); 'R' / 'vects0' keep the rotation and the axis-aligned cell."""
+    if kind.endswith('-rotated'):
+        fam = kind[:-len('-rotated')]
+        cell = cells.gen_cell(rng, fam, oc, scale)
+        R = G.random_rotation(rng) if orient == 'generic' else GH.orientation(rng, orient)
+        cell['vects0'] = cell['vects']
+        cell['R'] = R
+        cell['vects'] = cell['vects'] @ R.T
         cell['lammps'] = False
         cell['kind'] = kind
+        cell['family'] = fam
+        cell['orientation'] = orient
         return cell
     return cells.gen_cell(rng, kind, oc, scale)
 
@@ -546,6 +559,16 @@ def group_strings(ctx, miller):
         expf = np.array([float(e) for e in exp])
         rec.close(0.0, got, expf, 'fromstring returns the numbers shown (times the leading fraction)', key, rtol=1e-15, string=s)
         rec.count('monitor:strings-judged')
+        # the caller works on the array in place (b *= 2, n /= |n|, ...) and parses the same string again
+        kind = GH.SCRIBBLES[i % len(GH.SCRIBBLES)]
+        if GH.scribble(got, kind) is not None:
+            again = None
+            with ctx.guard('fromstring parses every well-formed index string', key):
+                again = miller.fromstring(s if i % 2 else GH.fresh_str(s))
+            if again is not None:
+                rec.close(0.0, again, expf, CL_REPEAT + ' (fromstring)', 'history:fromstring:repeat', rtol=1e-15, string=s, in_place_use=kind)
+                rec.check(again is not got and not GH.shares(again, got), CL_FRESH + ' (fromstring)', 'history:fromstring:result-aliases-result', string=s)
+                rec.count('strings:reparsed-after-in-place-use')
 
 
 def build_family(am, fam, p):
@@ -669,7 +692,7 @@ def group_present(ctx, am, miller, TRI, m):
         rnd = i // (3 * NP)
         dcl = GP.dclass(name)
         scale = LENGTH_SCALES[(i + 3 * rnd) % 8]
-        kind = CELL_KINDS[(i + 5 * rnd) % 12]
+        kind = CELL_KINDS_ALL[(i + 5 * rnd) % len(CELL_KINDS_ALL)]
         oc = cells.ORIGINS[(i + rnd) % 3]
         cell = make_cell(rng, kind, oc, scale)
         hcell = make_cell(rng, ('hexagonal', 'hexagonal-rotated')[(i + rnd) % 2], oc, scale)
@@ -839,6 +862,557 @@ def group_present(ctx, am, miller, TRI, m):
 
 
 
+# ----------------------------------------------------------------------------- every family in every orientation
+def group_oriented(ctx, am, miller, TRI, m):
+    """Plane normals / directions of the whole enumerated index set in cells of EVERY crystal family (cubic included)
+    turned off the Cartesian axes: 7 families x 6 orientation classes x 3 length scales."""
+    rec = ctx.rec
+    NO = len(GH.ORIENTATIONS)
+    n = 7 * NO * ctx.pick(2, 6)
+    Q = quads_from(TRI)
+    zone0 = M.zone_table(TRI, TRI) == 0
+    ntri = len(TRI)
+    for i in ctx.cases('oriented', n):
+        rng = ctx.rng
+        fam = cells.FAMILIES[i % 7]
+        orient = GH.ORIENTATIONS[(i // 7) % NO]
+        rnd = i // (7 * NO)
+        scale = ORIENT_SCALES[(i + i // 7 + rnd) % 3]
+        oc = cells.ORIGINS[(i // 7 + rnd) % 3]
+        cell = make_cell(rng, fam + '-rotated', oc, scale, orient)
+        v, o, L = cell['vects'], cell['origin'], cell['L']
+        rec.case(('oriented', fam, orient, scale), nontrivial=True, fp=fingerprint(v, o))
+        if rnd == 0 and i % 5 == 0:
+            rec.sample(dict(family=fam, orientation=orient, vects=v, rotation=cell['R']))
+        box = box0 = None
+        with ctx.guard('Box can be built from right-handed vectors', 'cells:build'):
+            box = am.Box(vects=v, origin=o)
+            box0 = am.Box(vects=cell['vects0'], origin=o)
+        if box is None or box0 is None:
+            continue
+        TRUTH[id(box)], TRUTH[id(box0)] = v, cell['vects0']
+        rec.count(f'oriented:{fam}:{orient}')
+        rec.count(f'oriented-scale:{scale:g}')
+        # reach evidence (not judged): the turned cell still answers to its family, so a family-specific path is taken
+        try:
+            rec.count(f'oriented:family-predicate-holds:{fam}', int(bool(getattr(box, 'is' + fam)())))
+        except Exception:
+            pass
+        off = float(np.abs(v - cell['vects0']).max() / L)
+        rec.count('oriented:cells-off-axis', int(off > 1e-4))
+        key = f'oriented:{fam}:{orient}'
+        shape = ('N', 'MN')[(i + rnd) % 2]
+        typ = GI.TYPES[(i + rnd) % 3]
+        meth = (i // 7 + rnd) % 2 == 0
+        n_exp, d_exp = M.plane_normal(TRI, v)
+        c_exp = M.cart_uvw(TRI, v)
+        f = (lambda a: box.plane_crystal_to_cartesian(a)) if meth else (lambda a: miller.plane_crystal_to_cartesian(a, box))
+        got = run_presented(ctx, f, TRI, shape, typ, 'plane normal is computed for every non-zero integer triple', key + ':plane:exception')
+        gotv = None
+        if got is not None:
+            rec.count(f'exhaustive:oriented-plane-triples[-{m},{m}]^3', ntri)
+            err = np.abs(got - n_exp).max(axis=1)
+            bad = ~(err <= 1e-9)
+            rec.check(not bad.any(), 'plane normal is the unit vector along h a* + k b* + l c* (cell of a crystal family in a general orientation)',
+                      key + ':plane-normal', indices=TRI[bad][:3], got=got[bad][:3], expected=n_exp[bad][:3], vects=v, family=fam, orientation=orient)
+        f = (lambda a: miller.vector_crystal_to_cartesian(a, box)) if meth else (lambda a: box.vector_crystal_to_cartesian(a))
+        gotv = run_presented(ctx, f, TRI, shape, typ, 'Cartesian vector is computed for every integer triple', key + ':vector:exception')
+        if gotv is not None:
+            rec.count(f'exhaustive:oriented-vector-triples[-{m},{m}]^3', ntri)
+            rec.close(1e-10 * L * (1 + m), gotv, c_exp, '[uvw] is u a + v b + w c (cell of a crystal family in a general orientation)',
+                      key + ':vector', vects=v, family=fam, orientation=orient)
+        if got is not None and gotv is not None:
+            dots = np.abs(got @ gotv.T)
+            worst = float(dots[zone0].max())
+            rec.check(worst <= 1e-9 * L * 3 * m, 'the normal is perpendicular to every lattice vector with hu+kv+lw = 0 (returned normal x returned vector)',
+                      key + ':zone', worst=worst, vects=v)
+            dots /= d_exp[:, None]
+            dots[zone0] = 1.0
+            rec.check(float(dots.min()) >= 0.5, 'the normal is perpendicular to no lattice vector with hu+kv+lw != 0 (returned normal x returned vector)',
+                      key + ':zone-off', vects=v)
+            del dots
+        # turning the cell turns the normal and the direction with it
+        sub = TRI[rng.choice(ntri, size=60, replace=False)]
+        with ctx.guard('plane normal / direction in the axis-aligned cell of the same shape', key + ':unrotated:exception'):
+            n0 = np.asarray(box0.plane_crystal_to_cartesian(sub), float)
+            n1 = np.asarray(box.plane_crystal_to_cartesian(sub), float)
+            rec.close(1e-9, n1, n0 @ cell['R'].T, 'rotating the cell rotates the plane normal with it', key + ':plane-covariant', vects=v, indices=sub[:3])
+            c0 = np.asarray(miller.vector_crystal_to_cartesian(sub, box0), float)
+            c1 = np.asarray(miller.vector_crystal_to_cartesian(sub, box), float)
+            rec.close(1e-10 * L * (1 + m), c1, c0 @ cell['R'].T, 'rotating the cell rotates [uvw] with it', key + ':vector-covariant', vects=v)
+            rec.count('oriented:covariance-judged')
+        if fam == 'hexagonal':
+            with ctx.guard('four-index notation in a turned hexagonal cell', key + ':four-index:exception'):
+                g4 = np.asarray(box.plane_crystal_to_cartesian(Q), float)
+                rec.close(1e-9, g4, n_exp, '(hkil) and (hkl) have the same normal', key + ':plane4', vects=v)
+                v4 = np.asarray(miller.vector_crystal_to_cartesian(Q, box), float)
+                rec.close(1e-10 * L * (1 + 2 * m), v4, M.cart_uvtw(Q, v), '[uvtw] = u a1 + v a2 + t a3 + w c with a3 = -(a1+a2)', key + ':vector4', vects=v)
+                rec.count('oriented:hexagonal-four-index')
+        TRUTH.pop(id(box), None)
+        TRUTH.pop(id(box0), None)
+
+
+# ----------------------------------------------------------------------------- call histories (aliasing, memo keys)
+CL_FIRST = 'the call returns the value the notation defines (first call of a history)'
+CL_REPEAT = 'a later call with an equal argument returns the same value, whatever the caller did in place with earlier results'
+CL_FRESH = 'every call returns an array of its own: no memory shared with an earlier result'
+CL_NOARG = 'the result shares no memory with the argument array or with the Box'
+CL_ARGKEPT = 'the call leaves its argument as it was'
+CL_ARGSAFE = "in-place use of a result leaves the caller's argument and the Box as they were"
+CL_RESKEPT = 'a result already returned does not change when the caller reuses its argument array or re-sets the Box'
+CL_REUSED = 'an argument object (index array, list, Box) modified in place and passed again is converted with its new values'
+CL_INTER = ('look-alike arguments in between (same characters / indices / shape / lattice parameters but other spacing / '
+            'box / setting / values) each give their own value')
+HIST_EPS = ('fromstring', 'plane3to4', 'plane4to3', 'vector3to4', 'vector4to3', 'p2c', 'c2p', 'reduce3', 'reduce4',
+            'vector-cart3:function', 'vector-cart3:method', 'vector-cart4', 'plane-cart3:function', 'plane-cart3:method',
+            'plane-cart4', 'all_indices', 'families:Box', 'families:crystalsystem')
+CENTRING_REF = {}          # setting -> (P, C): conversion matrices measured before any history ran and verified by the oracle
+
+
+def _val(rec, tol, got, exp, clause, key, **detail):
+    got = np.asarray(got)
+    exp = np.asarray(exp)
+    if got.dtype.kind not in 'iuf':
+        rec.fail(clause, key, why='result is not a numeric array', dtype=str(got.dtype), **detail)
+        return False
+    return rec.close(tol, got, exp, clause, key, **detail)
+
+
+def index_history(ctx, ep, fcall, exp_of, tol_of, rows, shape, typ, step, same_obj, env, env_truth, env_decoys=(), reset=None,
+                  extra_decoys=()):
+    """One history of the entry point ``ep`` on the integer rows ``rows`` presented as ``shape`` / ``typ``.
+    fcall(arg, env) -> result (env: Box / setting / None); exp_of(int array, env_truth) -> oracle value;
+    env_decoys: [(label, env, env_truth)]; reset(env_truth or None): re-set / restore the SAME env object."""
+    rec = ctx.rec
+    K = f'history:{ep}:'
+    R = GH.shaped(rows, shape)
+    exp, tol = exp_of(R, env_truth), tol_of(R, env_truth)
+    box = env if hasattr(env, 'vects') else None
+    nsk = len(GH.SCRIBBLES)
+    cnt = [0]
+
+    def call(arg, e, tag):
+        out = None
+        with ctx.guard('the call succeeds on an in-domain argument at every point of a history', K + tag):
+            out = fcall(arg, e)
+        return out
+
+    def scrib(a):
+        cnt[0] += 1
+        did = GH.scribble(a, GH.SCRIBBLES[(step + cnt[0]) % nsk])
+        rec.count('history:scribble:' + str(did))
+        return did
+
+    detail = dict(entry=ep, shape=shape, element_type=typ)
+    a1 = GH.make_arg(R, typ)
+    snap = GH.snapshot(a1)
+    vb = box.vects if box is not None else None
+    r1 = call(a1, env, 'first')
+    if r1 is None:
+        return
+    _val(rec, tol, r1, exp, CL_FIRST, K + 'first', indices=R, **detail)
+    rec.check(GH.same(a1, snap), CL_ARGKEPT, K + 'argument-modified', **detail)
+    rec.check(r1 is not a1 and not GH.shares(r1, a1), CL_NOARG, K + 'result-aliases-argument', **detail)
+    if box is not None:
+        internal = getattr(box, '_Box__vects', None)
+        if isinstance(internal, np.ndarray):
+            rec.check(not GH.shares(r1, internal), CL_NOARG, K + 'result-aliases-box', **detail)
+            rec.count('history:box-internals-inspected')
+    s1 = np.array(r1, copy=True)
+    reptol = 16 * EPS * (1.0 + float(np.abs(s1).max())) if s1.dtype.kind in 'iuf' and s1.size else 0.0
+    used = scrib(r1)
+    ok = GH.same(a1, snap) and (box is None or np.array_equal(box.vects, vb))
+    rec.check(ok, CL_ARGSAFE, K + 'argument-follows-result', in_place_use=used, **detail)
+    a2 = a1 if (same_obj and GH.same(a1, snap)) else GH.make_arg(R, typ)
+    r2 = call(a2, env, 'repeat')
+    if r2 is not None:
+        rec.check(r2 is not r1 and not GH.shares(r2, r1), CL_FRESH, K + 'result-aliases-result', **detail)
+        _val(rec, reptol, r2, s1, CL_REPEAT, K + 'repeat', indices=R, in_place_use=used, **detail)
+        _val(rec, tol, r2, exp, CL_REPEAT + ' (oracle)', K + 'repeat', indices=R, in_place_use=used, **detail)
+        rec.count('history:repeat-after-in-place-use:' + ep)
+        scrib(r2)
+    # --- look-alike ARGUMENTS in between
+    others = [s_ for s_ in GH.SHAPES if s_ != shape]
+    types = GH.ARG_TYPES_INT if ep.startswith('reduce') else GH.ARG_TYPES
+    decoys = [('other-values', GH.shaped(GH.other_rows(ctx.rng, rows), shape), typ),
+              ('other-element-type', R, types[(types.index(typ) + 1 + step % (len(types) - 1)) % len(types)]),
+              ('other-shape', GH.shaped(rows, others[step % 2]), typ)] + list(extra_decoys)
+    for label, D, td in decoys:
+        rd = call(GH.make_arg(D, td), env, 'interleaved:' + label)
+        if rd is None:
+            continue
+        _val(rec, tol_of(D, env_truth), rd, exp_of(D, env_truth), CL_INTER, K + 'interleaved:' + label, indices=D, **detail)
+        scrib(rd)
+        r3 = call(GH.make_arg(R, typ), env, 'interleaved:' + label + ':repeat')
+        if r3 is not None:
+            _val(rec, reptol, r3, s1, CL_REPEAT, K + 'interleaved:' + label + ':repeat', indices=R, **detail)
+            scrib(r3)
+        rec.count(f'history:interleaved:{label}')
+    # --- look-alike BOXES / SETTINGS in between
+    for label, e2, t2 in env_decoys:
+        rd = call(GH.make_arg(R, typ), e2, 'interleaved:' + label)
+        if rd is None:
+            continue
+        _val(rec, tol_of(R, t2), rd, exp_of(R, t2), CL_INTER, K + 'interleaved:' + label, indices=R, other=t2, **detail)
+        scrib(rd)
+        r3 = call(GH.make_arg(R, typ), env, 'interleaved:' + label + ':repeat')
+        if r3 is not None:
+            _val(rec, reptol, r3, s1, CL_REPEAT, K + 'interleaved:' + label + ':repeat', indices=R, **detail)
+        rec.count(f'history:interleaved:{label}')
+    # --- the caller reuses its argument object for other indices
+    a3 = GH.make_arg(R, typ)
+    r4 = call(a3, env, 'first')
+    if r4 is not None:
+        s4 = np.array(r4, copy=True)
+        GH.negate_in_place(a3)
+        rec.check(np.array_equal(np.asarray(r4), s4, equal_nan=True), CL_RESKEPT, K + 'result-follows-argument', **detail)
+        r5 = call(a3, env, 'argument-reused')
+        if r5 is not None:
+            Rn = -R
+            _val(rec, tol_of(Rn, env_truth), r5, exp_of(Rn, env_truth), CL_REUSED, K + 'argument-reused', indices=Rn, **detail)
+            rec.count('history:argument-reused:' + ep)
+    # --- the caller re-sets the SAME Box object (and sets it back)
+    if reset is not None and env_decoys:
+        keep = call(GH.make_arg(R, typ), env, 'first')
+        skeep = None if keep is None else np.array(keep, copy=True)
+        for j, (label, e2, t2) in enumerate(env_decoys):
+            with ctx.guard('Box.set / Box.vects accept right-handed vectors', K + 'box-reset:exception'):
+                reset(t2, j)
+            rd = call(GH.make_arg(R, typ), env, 'box-reset')
+            if rd is not None:
+                _val(rec, tol_of(R, t2), rd, exp_of(R, t2), CL_REUSED, K + 'box-reset', indices=R, now=t2, was=env_truth, like=label, **detail)
+                scrib(rd)
+            rec.count('history:box-reset:' + ep)
+        if skeep is not None:
+            rec.check(np.array_equal(np.asarray(keep), skeep, equal_nan=True), CL_RESKEPT, K + 'result-follows-box', **detail)
+        with ctx.guard('Box.set / Box.vects accept right-handed vectors', K + 'box-reset:exception'):
+            reset(None, 0)
+        rb = call(GH.make_arg(R, typ), env, 'box-reset:back')
+        if rb is not None:
+            _val(rec, tol, rb, exp, CL_REUSED, K + 'box-reset:back', indices=R, **detail)
+
+
+def string_history(ctx, miller, step, rnd):
+    rec = ctx.rec
+    K = 'history:fromstring:'
+    nsk = len(GH.SCRIBBLES)
+    for j in range(5):
+        bracket, fraction, nterms = GS.CLASSES[(5 * rnd + j) % len(GS.CLASSES)]
+        s, exp, variants = GH.string_history(ctx.rng, bracket, fraction, nterms)
+        expf = np.array([float(e) for e in exp])
+        rec.count('history:string-class:' + bracket)
+        r1 = None
+        with ctx.guard('fromstring parses every well-formed index string', K + 'first'):
+            r1 = miller.fromstring(s)
+        if r1 is None:
+            continue
+        _val(rec, 0.0, r1, expf, CL_FIRST, K + 'first', rtol=1e-15, string=s)
+        used = GH.scribble(r1, GH.SCRIBBLES[(step + j) % nsk])
+        rec.count('history:scribble:' + str(used))
+        for q, s2 in enumerate((s, GH.fresh_str(s))):
+            r2 = None
+            with ctx.guard('fromstring parses every well-formed index string', K + 'repeat'):
+                r2 = miller.fromstring(s2)
+            if r2 is None:
+                continue
+            _val(rec, 0.0, r2, expf, CL_REPEAT, K + 'repeat', rtol=1e-15, string=s, in_place_use=used)
+            rec.check(r2 is not r1 and not GH.shares(r2, r1), CL_FRESH, K + 'result-aliases-result', string=s)
+            GH.scribble(r2, GH.SCRIBBLES[(step + j + q + 1) % nsk])
+            rec.count('history:repeat-after-in-place-use:fromstring')
+        for q, (label, sv, ev, samenum) in enumerate(variants):
+            rd = None
+            with ctx.guard('fromstring parses every well-formed index string', K + 'interleaved:' + label):
+                rd = miller.fromstring(sv)
+            if rd is None:
+                continue
+            _val(rec, 0.0, rd, np.array([float(e) for e in ev]), CL_INTER, K + 'interleaved:' + label, rtol=1e-15, string=sv, before=s)
+            GH.scribble(rd, GH.SCRIBBLES[(step + q) % nsk])
+            r3 = None
+            with ctx.guard('fromstring parses every well-formed index string', K + 'interleaved:' + label + ':repeat'):
+                r3 = miller.fromstring(s)
+            if r3 is not None:
+                _val(rec, 0.0, r3, expf, CL_REPEAT, K + 'interleaved:' + label + ':repeat', rtol=1e-15, string=s, between=sv)
+                GH.scribble(r3, GH.SCRIBBLES[(step + q + 2) % nsk])
+            rec.count('history:interleaved:string:' + label)
+
+
+def all_indices_history(ctx, miller, step, rnd):
+    rec = ctx.rec
+    K = 'history:all_indices:'
+    mm = 1 + rnd % 3
+    flag = (rnd // 3) % 2 == 1
+    nsk = len(GH.SCRIBBLES)
+
+    def judge(a, m_, fl, clause, key):
+        exp = M.all_triples(m_)
+        if fl:
+            exp = np.unique(M.reduce_rows(exp), axis=0)
+        a = np.asarray(a)
+        ok = a.ndim == 2 and a.shape == exp.shape and a.dtype.kind in 'iu' and np.array_equal(M.sorted_rows(a), M.sorted_rows(exp))
+        rec.check(ok, clause, key, maxindex=m_, reduce=fl, got_shape=a.shape, dtype=str(a.dtype), first_rows=a[:3])
+
+    forms = [lambda: miller.all_indices(mm, reduce=flag), lambda: miller.all_indices(mm, flag), lambda: miller.all_indices(maxindex=mm, reduce=flag)]
+    prev = []
+    for j, f in enumerate(forms + forms[:1]):
+        r = None
+        with ctx.guard('all_indices', K + 'exception'):
+            r = f()
+        if r is None:
+            continue
+        judge(r, mm, flag, CL_FIRST if j == 0 else CL_REPEAT, K + ('first' if j == 0 else 'repeat'))
+        rec.check(all(r is not p and not GH.shares(r, p) for p in prev), CL_FRESH, K + 'result-aliases-result')
+        prev.append(r)
+        rec.count('history:scribble:' + str(GH.scribble(r, GH.SCRIBBLES[(step + j) % nsk])))
+        if j:
+            rec.count('history:repeat-after-in-place-use:all_indices')
+    decoys = [('other-reduce-flag', mm, not flag), ('larger-maxindex', mm + 1, flag), ('larger-maxindex-other-flag', mm + 1, not flag)]
+    if mm > 1:
+        decoys.append(('smaller-maxindex', mm - 1, flag))
+    for q, (label, m2, f2) in enumerate(decoys):
+        with ctx.guard('all_indices', K + 'exception'):
+            rd = miller.all_indices(m2, reduce=f2)
+            judge(rd, m2, f2, CL_INTER, K + 'interleaved:' + label)
+            GH.scribble(rd, GH.SCRIBBLES[(step + q) % nsk])
+            r3 = miller.all_indices(mm, reduce=flag)
+            judge(r3, mm, flag, CL_REPEAT, K + 'interleaved:' + label + ':repeat')
+            GH.scribble(r3, GH.SCRIBBLES[(step + q + 3) % nsk])
+            rec.count('history:interleaved:all_indices:' + label)
+    # default arguments: all_indices(m) is the unreduced set even after reduced ones were asked for
+    with ctx.guard('all_indices', K + 'exception'):
+        judge(miller.all_indices(mm), mm, False, CL_INTER, K + 'interleaved:default-reduce')
+
+
+def sibling_params(rng, p, fam):
+    """Generic parameters of family ``fam`` sharing as many edge LENGTHS with the cell ``p`` as the family allows."""
+    q = dict(cells.family_params(rng, fam))
+    a = p['a']
+    rb, rc = q['b'] / q['a'], q['c'] / q['a']
+    b = p['b'] if p['b'] / a >= 1.1 else a * rb
+    c = p['c'] if p['c'] / a >= 1.1 else a * rc
+    if fam in ('cubic', 'rhombohedral'):
+        q.update(a=a, b=a, c=a)
+    elif fam in ('tetragonal', 'hexagonal'):
+        q.update(a=a, b=a, c=c)
+    else:
+        if abs(c / b - 1) < 0.05:
+            c = b * 1.3
+        q.update(a=a, b=b, c=c)
+    return {k: float(x) for k, x in q.items()}
+
+
+def family_history(ctx, am, cs, ep, step, rnd):
+    rec = ctx.rec
+    rng = ctx.rng
+    K = f'history:{ep}:'
+    onbox = ep.endswith('Box')
+    ident = (lambda b: b.identifyfamily()) if onbox else (lambda b: cs.identifyfamily(b))
+    pred = (lambda b, f: getattr(b, 'is' + f)()) if onbox else (lambda b, f: getattr(cs, 'is' + f)(b))
+    fam = cells.FAMILIES[rnd % 7]
+    scale = cells.SCALES[(rnd // 7 + rnd) % 3]
+    p = dict(cells.family_params(rng, fam))
+    for kk in 'abc':
+        p[kk] = float(p[kk] * scale)
+    p = {k: float(x) for k, x in p.items()}
+    cl = 'a cell built with the parameters of a crystal family is identified as that family'
+
+    def judge(b, f_, tag, clause, params):
+        with ctx.guard('family identification', K + tag):
+            got = ident(b)
+            rec.check(got == f_, clause + ': ' + cl, K + tag, got=got, expected=f_, params=params)
+            wrong = [o for o in FAMILY_OF_PRED if bool(pred(b, o)) != (o == f_)]
+            rec.check(not wrong, clause + ': exactly the predicate of the constructed family holds', K + tag + ':predicates',
+                      wrong=wrong, expected=f_, params=params)
+            rec.count('history:families-judged')
+
+    box = None
+    with ctx.guard(f'family constructor accepts generic {fam} parameters', K + 'constructor'):
+        box = build_family(am, fam, p)
+    if box is None:
+        return
+    judge(box, fam, 'first', CL_FIRST, p)
+    judge(box, fam, 'repeat', CL_REPEAT, p)
+    others = [f for f in cells.FAMILIES if f != fam]
+    # other cells sharing its edge lengths, in between
+    for f2 in others:
+        p2 = sibling_params(rng, p, f2)
+        b2 = None
+        with ctx.guard(f'family constructor accepts generic {f2} parameters', K + 'constructor'):
+            b2 = build_family(am, f2, p2)
+        if b2 is None:
+            continue
+        judge(b2, f2, 'interleaved:shared-edge-lengths', CL_INTER, p2)
+        judge(box, fam, 'interleaved:shared-edge-lengths:repeat', CL_REPEAT, p)
+        rec.count('history:interleaved:families:shared-edge-lengths')
+    # the same Box object given the parameters of other families
+    names = ('a', 'b', 'c', 'alpha', 'beta', 'gamma')
+    for j in range(3):
+        f2 = others[(step + 2 * j) % 6]
+        p2 = sibling_params(rng, p, f2)
+        with ctx.guard('Box.set accepts lattice parameters', K + 'box-reset:exception'):
+            box.set(**{k: p2[k] for k in names})
+            judge(box, f2, 'box-reset', CL_REUSED, p2)
+            rec.count('history:box-reset:' + ep)
+    with ctx.guard('Box.set accepts lattice parameters', K + 'box-reset:exception'):
+        box.set(**{k: p[k] for k in names})
+        judge(box, fam, 'box-reset:back', CL_REUSED, p)
+    # short-lived Box objects one after the other (an object identity is used again for another cell)
+    seen = set()
+    for j in range(14):
+        f2 = cells.FAMILIES[(j + step) % 7]
+        p2 = sibling_params(rng, p, f2)
+        with ctx.guard(f'family constructor accepts generic {f2} parameters', K + 'constructor'):
+            b2 = build_family(am, f2, p2)
+            rec.count('history:families:object-identity-seen-before', int(id(b2) in seen))
+            seen.add(id(b2))
+            judge(b2, f2, 'short-lived-objects', CL_INTER, p2)
+            del b2
+
+
+def group_history(ctx, am, miller, cs, TRI, m):
+    """Call HISTORIES of every function of the property: in-place use of returned arrays between calls, reuse of
+    argument objects and of Box objects, and look-alike arguments interleaved (aliasing / memoisation defects are
+    invisible to any stateless call-then-compare sweep)."""
+    rec = ctx.rec
+    NE = len(HIST_EPS)
+    n = NE * ctx.pick(8, 24)
+    p2c, c2p = miller.vector_primitive_to_conventional, miller.vector_conventional_to_primitive
+    plain = {'plane3to4': (miller.plane3to4, 3, M.plane3to4, 0.0), 'plane4to3': (miller.plane4to3, 4, M.plane4to3, 0.0),
+             'vector3to4': (miller.vector3to4, 3, M.vector3to4, 1e-14), 'vector4to3': (miller.vector4to3, 4, M.vector4to3, 1e-13),
+             'reduce3': (miller.reduce_indices, 3, M.reduce_rows, 0.0), 'reduce4': (miller.reduce_indices, 4, M.reduce_rows, 0.0)}
+    for i in ctx.cases('history', n):
+        rng = ctx.rng
+        ep = HIST_EPS[i % NE]
+        rnd = i // NE
+        step = i + rnd
+        rec.case(('history', ep, rnd % 6), nontrivial=True, fp=fingerprint('history', ep, rnd, ctx.seed))
+        rec.count(f'history:{ep}:cases')
+        if ep == 'fromstring':
+            string_history(ctx, miller, step, rnd)
+            continue
+        if ep == 'all_indices':
+            all_indices_history(ctx, miller, step, rnd)
+            continue
+        if ep.startswith('families'):
+            family_history(ctx, am, cs, ep, step, rnd)
+            continue
+        k = plain[ep][1] if ep in plain else (4 if ep.split(':')[0].endswith('cart4') else 3)
+        rows = GH.index_rows(rng, TRI, k)
+        types = GH.ARG_TYPES_INT if ep.startswith('reduce') else GH.ARG_TYPES
+        if rnd < 2:
+            rec.sample(dict(entry=ep, rows=rows[:4], shapes=GH.SHAPES, element_types=types))
+        for s, shape in enumerate(GH.SHAPES):
+            typ = types[(rnd + s) % len(types)]
+            same_obj = (rnd + s) % 2 == 0
+            rec.count(f'history:argument:{typ}')
+            rec.count(f'history:shape:{shape}')
+            if ep in plain:
+                f, _, oracle, ot = plain[ep]
+                rws = rows
+                extra = []
+                if ep.startswith('reduce'):
+                    # half the rows multiplied, the others already coprime; every third round ALL rows already coprime
+                    rws = M.reduce_rows(rows)
+                    if rnd % 3 != 2:
+                        mult = rng.integers(1, 10, (len(rws), 1))
+                        mult[::2] = 1
+                        rws = rws * mult
+                    else:
+                        rec.count('history:reduce-all-rows-already-coprime')
+                    # the same buffer read with the other row width (24 rows of 3 <-> 18 rows of 4)
+                    alt = np.ascontiguousarray(rws).reshape(-1, 7 - k)
+                    if (np.abs(alt).sum(axis=1) != 0).all():
+                        extra.append(('same-buffer-other-width', alt, typ))
+                index_history(ctx, ep, lambda a, e, f=f: f(a), lambda R, t, o=oracle: np.asarray(o(R), float),
+                              lambda R, t, ot=ot: ot * (1.0 + float(np.abs(R).max())), rws, shape, typ, step + s, same_obj, None, None,
+                              extra_decoys=extra)
+            elif ep in ('p2c', 'c2p'):
+                setting = M.SETTINGS[(rnd + s) % 8]
+                if setting not in CENTRING_REF:
+                    rec.count('history:centring-reference-missing')
+                    continue
+                f = p2c if ep == 'p2c' else c2p
+                col = 0 if ep == 'p2c' else 1
+                decoys = [('other-setting:' + ('identity' if s2 == 'p' else 'centred'), s2, s2)
+                          for s2 in (M.SETTINGS[(rnd + s + 1 + j) % 8] for j in range(3)) if s2 in CENTRING_REF]
+                rec.count('history:setting:' + setting)
+                index_history(ctx, ep, lambda a, e, f=f: f(a, e), lambda R, t, col=col: np.asarray(R, float) @ CENTRING_REF[t][col],
+                              lambda R, t: 1e-12 * (1.0 + 3.0 * float(np.abs(R).max())), rows, shape, typ, step + s, same_obj, setting, setting,
+                              env_decoys=decoys)
+            else:
+                hexa = k == 4
+                if hexa:
+                    kind = ('hexagonal', 'hexagonal-rotated')[(rnd + s) % 2]
+                else:
+                    kind = CELL_KINDS_ALL[(rnd * 3 + s + i) % len(CELL_KINDS_ALL)]
+                orient = GH.ORIENTATIONS[(rnd + s) % len(GH.ORIENTATIONS)]
+                scale = LENGTH_SCALES[(rnd + s) % 8]
+                oc = cells.ORIGINS[(rnd + s) % 3]
+                cell = make_cell(rng, kind, oc, scale, orient)
+                v, o = cell['vects'], cell['origin']
+                rec.count('history:cellkind:' + kind)
+                Rr = GH.orientation(rng, GH.ORIENTATIONS[(rnd + s + 1) % len(GH.ORIENTATIONS)])
+                dv = [('other-box-same-lattice-parameters', v @ Rr.T), ('other-box-scaled', v * float(rng.choice([2.0, 0.5, 3.0])))]
+                if hexa:
+                    v3 = v.copy()
+                    v3[2] *= 1.37
+                    dv.append(('other-box-other-c/a', v3))
+                else:
+                    dv.append(('other-box-other-cell', make_cell(rng, CELL_KINDS_ALL[(rnd + s + 7) % len(CELL_KINDS_ALL)], oc, scale)['vects']))
+                box = None
+                boxes = []
+                with ctx.guard('Box can be built from right-handed vectors', 'cells:build'):
+                    box = am.Box(vects=v, origin=o)
+                    for label, v2 in dv:
+                        b2 = am.Box(vects=v2, origin=o)
+                        TRUTH[id(b2)] = v2
+                        boxes.append((label, b2, v2))
+                if box is None or len(boxes) != len(dv):
+                    continue
+                TRUTH[id(box)] = v
+                meth = ep.endswith(':method') or (hexa and (rnd + s) % 2 == 0)
+                isplane = ep.startswith('plane')
+                if isplane:
+                    f = (lambda a, b: b.plane_crystal_to_cartesian(a)) if meth else (lambda a, b: miller.plane_crystal_to_cartesian(a, b))
+                    exp_of = lambda R, t: M.plane_normal(M.plane4to3(R) if np.shape(R)[-1] == 4 else R, t)[0]
+                    tol_of = lambda R, t: 1e-9
+                else:
+                    f = (lambda a, b: b.vector_crystal_to_cartesian(a)) if meth else (lambda a, b: miller.vector_crystal_to_cartesian(a, b))
+                    exp_of = lambda R, t: M.cart_uvtw(R, t) if np.shape(R)[-1] == 4 else M.cart_uvw(R, t)
+                    tol_of = lambda R, t: 1e-10 * float(np.linalg.norm(t, axis=1).max()) * (1.0 + float(np.abs(R).max()))
+
+                def reset(t2, j, box=box, v=v, o=o):
+                    vv = v if t2 is None else t2
+                    TRUTH[id(box)] = vv
+                    if j % 3 == 0:
+                        box.set(vects=vv, origin=o)
+                    elif j % 3 == 1:
+                        box.vects = vv
+                    else:
+                        box.set(avect=vv[0], bvect=vv[1], cvect=vv[2], origin=o)
+
+                index_history(ctx, ep, f, exp_of, tol_of, rows, shape, typ, step + s, same_obj, box, v, env_decoys=boxes, reset=reset)
+                TRUTH.pop(id(box), None)
+                for _, b2, _ in boxes:
+                    TRUTH.pop(id(b2), None)
+
+
+def centring_reference(ctx, miller):
+    """Conversion matrices of every setting, taken before any history ran, verified from the definition of the centred
+    lattice (oracle): rows of P are lattice translations spanning a cell with one lattice point; C is the inverse of P."""
+    rec = ctx.rec
+    for setting in M.SETTINGS:
+        P = C = None
+        with ctx.guard('conversion of the unit vectors', f'centring:{setting}:matrix:exception'):
+            P = np.array(miller.vector_primitive_to_conventional(np.eye(3), setting), float)
+            C = np.array(miller.vector_conventional_to_primitive(np.eye(3), setting), float)
+        if P is None or C is None:
+            continue
+        ok = M.is_primitive_basis(P, setting) and C.shape == (3, 3) and np.abs(P @ C - np.eye(3)).max() <= 1e-12
+        if ok:
+            CENTRING_REF[setting] = (P, C)
+        rec.count('history:centring-reference-verified', int(ok))
+
+
 # ----------------------------------------------------------------------------- run
 def run(ctx):
     import atomman as am
@@ -854,6 +1428,7 @@ def run(ctx):
     cover.start([MILLER_PY])
     install_monitors(rec, miller)
 
+    centring_reference(ctx, miller)
     group_cells(ctx, am, miller, TRI, m)
     group_index34(ctx, miller, TRI, m)
     group_centring(ctx, miller, TRI, m)
@@ -861,6 +1436,8 @@ def run(ctx):
     group_strings(ctx, miller)
     group_families(ctx, am, cs)
     group_present(ctx, am, miller, TRI, m)
+    group_oriented(ctx, am, miller, TRI, m)
+    group_history(ctx, am, miller, cs, TRI, m)
 
     # reach: the seven zero-pattern branches of plane_crystal_to_cartesian
     rec.count('reach:plane-branches-located', 1 if len(blines) == 7 else 0)
@@ -942,3 +1519,57 @@ def run(ctx):
     rec.floor('length-scale-sweep:1e-10', 12)
     rec.floor('length-scale-sweep:10000', 12)
     rec.floor('length-scale-sweep:cells', 100)
+    # every crystal family in every orientation class
+    for fam in cells.FAMILIES:
+        for orient in GH.ORIENTATIONS:
+            rec.floor(f'oriented:{fam}:{orient}', ctx.pick(2, 6))
+        rec.floor(f'oriented:family-predicate-holds:{fam}', len(GH.ORIENTATIONS) * ctx.pick(2, 6))
+    nor = 7 * len(GH.ORIENTATIONS) * ctx.pick(2, 6)
+    rec.floor('oriented:cells-off-axis', nor)
+    rec.floor(f'exhaustive:oriented-plane-triples[-{m},{m}]^3', nor * len(TRI))
+    rec.floor(f'exhaustive:oriented-vector-triples[-{m},{m}]^3', nor * len(TRI))
+    rec.floor('oriented:covariance-judged', nor)
+    rec.floor('oriented:hexagonal-four-index', len(GH.ORIENTATIONS) * ctx.pick(2, 6))
+    for sc in ORIENT_SCALES:
+        rec.floor(f'oriented-scale:{sc:g}', 14)
+    # call histories: every entry point, every kind of in-place use, every look-alike class
+    nh = ctx.pick(8, 24)
+    rec.floor('history:centring-reference-verified', 8)
+    for ep in HIST_EPS:
+        rec.floor(f'history:{ep}:cases', nh)
+        if ep.startswith('families'):
+            rec.floor('history:box-reset:' + ep, 3 * nh)
+            continue
+        rec.floor('history:repeat-after-in-place-use:' + ep, 3 * nh)
+        if ep in ('fromstring', 'all_indices'):
+            continue
+        rec.floor('history:argument-reused:' + ep, 3 * nh)
+        if 'cart' in ep:
+            rec.floor('history:box-reset:' + ep, 9 * nh)
+    for sk in GH.SCRIBBLES:
+        rec.floor('history:scribble:' + sk, 100)
+    for lab in ('other-values', 'other-element-type', 'other-shape'):
+        rec.floor('history:interleaved:' + lab, 13 * 3 * nh)
+    rec.floor('history:interleaved:same-buffer-other-width', nh)
+    rec.floor('history:reduce-all-rows-already-coprime', 6)
+    for lab in ('other-box-same-lattice-parameters', 'other-box-scaled'):
+        rec.floor('history:interleaved:' + lab, 6 * 3 * nh)
+    rec.floor('history:interleaved:other-box-other-c/a', 2 * 3 * nh)
+    rec.floor('history:interleaved:other-box-other-cell', 4 * 3 * nh)
+    rec.floor('history:interleaved:other-setting:identity', 6)
+    rec.floor('history:interleaved:other-setting:centred', 12 * nh)
+    for typ in GH.ARG_TYPES:
+        rec.floor('history:argument:' + typ, 3 * nh)
+    for shape in GH.SHAPES:
+        rec.floor('history:shape:' + shape, 13 * nh)
+    for lab in ('respaced', 'padded', 'other-bracket', 'digits-regrouped', 'other-fraction', 'fraction-dropped', 'signs-flipped',
+                'one-term-less', 'one-term-more', 'last-term-changed'):
+        rec.floor('history:interleaved:string:' + lab, nh)
+    for b in list(GS.BRACKETS) + ['bare']:
+        rec.floor('history:string-class:' + b, 2)
+    for lab in ('other-reduce-flag', 'larger-maxindex', 'larger-maxindex-other-flag', 'smaller-maxindex'):
+        rec.floor('history:interleaved:all_indices:' + lab, 4)
+    rec.floor('history:interleaved:families:shared-edge-lengths', 2 * 6 * nh)
+    rec.floor('history:families-judged', 2 * 30 * nh)
+    rec.floor('history:families:object-identity-seen-before', 1)
+    rec.floor('strings:reparsed-after-in-place-use', 300)
